@@ -34,8 +34,9 @@ E2TECH = "path-sensitive abstract interpretation of rustc MIR over a shape domai
 CHECKS["C01"] = ("proof",
     "Inductive invariant: from every abstract pre-state consistent with J and V (all aliasing/liveness cases, neighbourhood materialised on demand, no "
     "bound on arena size) each entry point re-establishes every instance of J0/J1/J2 that mentions a written field, at every exit incl. panics. "
-    "Entries so far: detach, the four checked inserts, append_value, new_node (remove/remove_subtree: see level_note).",
-    "5/C01", E2NOTE + " remove/remove_subtree are not yet interpreted (loop summaries in progress): their J-preservation is not claimed by this check yet.", E2TECH)
+    "Entries: detach, the four checked inserts, append_value, new_node, remove (child chain via a verified cursor-loop summary = quantified write), "
+    "remove_subtree (loop-invariant mode: prefix + generic iteration + exit).",
+    "5/C01", E2NOTE + " For remove_subtree J is proved as a loop invariant (stronger than needed at exit).", E2TECH)
 CHECKS["C02"] = ("proof",
     "J3 preserved: every changed parent edge leads into a pre-state ancestor chain free of re-parented nodes (ancestor facts from the summarised "
     "ancestors().any loop or from J); call graph acyclic; every natural loop in reachable code is accounted for with a termination argument.",
@@ -51,7 +52,12 @@ CHECKS["C05"] = ("proof",
     "5/C05", E2NOTE, E2TECH + " + wrapper rule")
 CHECKS["C12"] = ("proof",
     "Refusal of every insert/append_value with a removed id with empty overlay (incl. len and free list), J5/J0 re-checked at every exit, recycled/new node starts with no links.",
-    "5/C12", E2NOTE + " J5 for remove/remove_subtree exits is pending the loop summaries and is not claimed yet.", E2TECH)
+    "5/C12", E2NOTE, E2TECH)
+CHECKS["C04"] = ("proof",
+    "remove(x): post-heap == reference model in every case (children of unbounded number handled by the verified rewrite_parents loop summary and a generic child), "
+    "exactly x freed. remove_subtree(x): prefix == detach(x); step table of one generic loop iteration decided by E2 (inner node: descend without writing; leaf: effect == "
+    "remove(leaf), cursor' = parent); exit writes nothing; the written induction in the evidence turns the table into 'exactly the subtree is deleted'.",
+    "5/C04", E2NOTE + " The induction over iterations is a fixed written argument (evidence.written_induction_remove_subtree), not re-derived per run.", E2TECH + " + loop-invariant (generic iteration) analysis")
 
 PENDING = "check under construction in this build round (DESIGN.md section 10); not claimed until its engine part exists"
 
@@ -95,7 +101,7 @@ def main():
              "kind_free_text": "rustc_private driver exporting ADTs, impls and MIR with resolved callees as JSON, per profile x feature set"},
             {"name": "E1 rules", "path": "vlib/rules.py", "serves_properties": props,
              "kind_free_text": "call graph, CFG/dominators, field-site index, origin (value-flow) rules over the exported program"},
-            {"name": "E2 absint", "path": "vlib/absint", "serves_properties": ["C01", "C02", "C03", "C05", "C12"],
+            {"name": "E2 absint", "path": "vlib/absint", "serves_properties": ["C01", "C02", "C03", "C04", "C05", "C12"],
              "kind_free_text": "path-sensitive abstract interpreter over MIR with a shape domain (lazily materialised individuals, integrity constraints J)"},
             {"name": "E3 witness", "path": "witness", "serves_properties": ["C18", "C13"],
              "kind_free_text": "compile_fail,E0xxx doc-tests with compiling twins + generic witness functions (cargo +nightly test --doc)"},
